@@ -54,6 +54,16 @@ func deepCopy(v Value) Value {
 		}
 		var cell Value = deepCopy(*v)
 		return &cell
+	case *Map:
+		if v == nil {
+			return v
+		}
+		c := &Map{KT: v.KT}
+		for i := range v.K {
+			c.K = append(c.K, deepCopy(v.K[i]))
+			c.V = append(c.V, deepCopy(v.V[i]))
+		}
+		return c
 	}
 	return v
 }
